@@ -31,5 +31,10 @@ class ImportNode(BaseNode):
             # an imported node carries its value: its expression or function is not evaluated again here
             node.value_expr = None
             node.value_fn = None
+            if env.envtype!=EnvType.DOCS and node.value is not None:
+                # ... nor its reference and slice; it is re-created from the value it has now
+                node.value_ref = None
+                node.value_slice = None
+                node.value_raw = node.raw_value()
             nodes_new.append(node)
         return nodes_new
